@@ -1,9 +1,9 @@
 (* C08 - faithful model of the size-class grid operations of
    kawin/precipitation/PopulationBalance.py (class PopulationBalanceModel):
-     __init__ (53-69), reset (71-92), LoadDistribution / LoadDistributionFunction (303-324),
-     createBackup / revert (326-345), changeSizeClasses (347-388), addSizeClasses (390-404),
-     adjustSizeClassesEuler (406-448), UpdatePBMEuler (628-641), the ...FromN moment functions
-     (643-697), setAdaptiveBinSize (281-289).
+     __init__ (53-69), reset (71-92), setAdaptiveBinSize (281-289), LoadDistribution /
+     LoadDistributionFunction (303-324), createBackup / revert (326-345), changeSizeClasses (347-388),
+     addSizeClasses (390-404), adjustSizeClassesEuler (406-448), UpdatePBMEuler (637-650), the ...FromN
+     moment functions (652-706)   [line numbers of the repaired file].
    The model is of the REPAIRED code (fixes/C08-*.patch):
      - reset() initialises the hidden backup with createBackup() (was: all-zero arrays),
      - changeSizeClasses re-bins by class overlap (was: np.interp of the density at the new centres),
